@@ -718,9 +718,10 @@ func (em *emitter) emitSelect(selectNode *ast.Select) {
 		return
 	}
 
-	// Enter in a new stack: all the registers allocated during the execution of
-	// the 'select' statement will be released at the end of it.
-	em.fb.enterStack()
+	// Enter in a new scope: all the registers allocated during the execution of
+	// the 'select' statement will be released at the end of it, and the
+	// variables declared by its cases are no longer bound to them.
+	em.fb.enterScope()
 
 	chs := make([]int8, len(selectNode.Cases))
 	sendValue := make([]int8, len(selectNode.Cases))
@@ -823,7 +824,7 @@ func (em *emitter) emitSelect(selectNode *ast.Select) {
 
 	// Release all the registers allocated during the execution of the 'select'
 	// statement.
-	em.fb.exitStack()
+	em.fb.exitScope()
 
 }
 
